@@ -74,6 +74,8 @@ static std::string file_class(const FileRef& f) {
     return f.len < s.data.size() ? "truncated" : s.error_seed ? "error-seed" : "valid";
 }
 
+static bool o5m_short_tail(const FileRef& f) { return g_seeds[f.seed].fmt == "o5m" && walk("o5m", bytes_of(f)).o5m_short_tail; }
+
 static void compare(const FileRef& f, const Result& base, const Result& r, const std::string& how, const std::string& keypart, const std::string& spec) {
     const Seed& s = g_seeds[f.seed];
     ++C["evaluations"];
@@ -85,7 +87,7 @@ static void compare(const FileRef& f, const Result& base, const Result& r, const
         if (r.header.compare(0, 3, "EXC") == 0 && base.header.compare(0, 3, "EXC") == 0) rn.header = base.header;
     }
     if (rn == base) return;
-    V.report(s.fmt + "/" + diff_kind(base, rn) + "/" + file_class(f) + "/" + keypart,
+    V.report(class_key(s.fmt, o5m_short_tail(f), base, rn, file_class(f), keypart),
              "input " + s.name + " len " + std::to_string(f.len) + " " + how + ": as one in-memory piece " + base.brief() + " but from the file " + r.brief(), spec);
 }
 
@@ -116,7 +118,7 @@ static void case_pieces(const FileRef& f) {
         unlink(path.c_str());
         if (bytes.size() > static_cast<size_t>(atoi(K)) && atoi(K) > 0) ++C["distinct_nontrivial"];     // really delivered in >= 2 pieces
         compare(f, base, r, std::string("read from a ") + (*comp ? comp + 1 : "plain") + " file in pieces of " + K + " bytes",
-                std::string("file:") + (*comp ? comp + 1 : "plain") + ",pieces-of-" + K, "pieces;" + s.name + ";" + std::to_string(f.len) + ";-");
+                std::string("file:") + (*comp ? comp + 1 : "plain") + ",small-pieces", "pieces;" + s.name + ";" + std::to_string(f.len) + ";-");
     }
 }
 
